@@ -52,6 +52,7 @@ pub fn run(ctx: &Ctx) -> i32 {
     { let dec = Envelope::new_assertion("knows", "Bob").add_salt_instance(crate::explore::fixed_salt()); let ann = Envelope::new_assertion("email", "a@b").add_assertion("verified", true);
       roots.push(("decorated-assertions".into(), Envelope::new("Alice").add_assertion_envelope(dec).unwrap().add_assertion_envelope(ann).unwrap().add_assertion("age", 30))); }
     roots.push(("already-compressed-subject".into(), Envelope::new("s").add_assertion("p", "o").compress_subject().unwrap()));
+    for (wn, m) in families::wide_tier(th) { if th || ["node-24-assertions", "wrapped-x24", "text-256", "bytes-256", "nested-nodes-x12"].contains(&wn.as_str()) { roots.push((format!("wide:{wn}"), bind::build(&m, 0))) } }
     let on_state = |e: &Envelope, desc: &dyn Fn() -> String, acc: &mut Acc| {
         let d0 = bind::dg(e); let o0 = bind::observe(e);
         let sc = subject_case(e);
@@ -94,6 +95,8 @@ pub fn run(ctx: &Ctx) -> i32 {
     };
     let ops_ = ops();
     let (st, mut acc) = explore::explore(&roots, &ops_, depth, &on_state, &|_, _, _, _, _| {}, None);
+    // the laws (no search) on every count / depth sweep shape
+    { let sw = families::wide_all(th); let a2 = sw.par_iter().with_max_len(1).map(|(wn, m)| { let mut acc = Acc::new(); if let Ok(e) = catch(|| bind::build(m, 0)) { acc.inc("sweep_shapes"); on_state(&e, &|| format!("sweep/{wn}"), &mut acc) } acc }).reduce(Acc::new, Acc::merge); acc = acc.merge(a2); }
     // faults on compressed elements
     let fam: Vec<M> = families::marked(if th { 6 } else { 5 });
     let f = fam.par_iter().enumerate().with_max_len(1).map(|(fi, m)| {
